@@ -529,8 +529,8 @@ func init() {
 					switch {
 					case onCompleted[f]:
 						rt, er := accessPath(cc.Args[0]), accessPath(cc.Args[1])
-						okrt := rt == "ctx.Rt()"
-						oker := er == "ctx.Err()"
+						okrt := rt == "{EntryContext}.Rt()"
+						oker := er == "{EntryContext}.Err()"
 						c.Check(okrt && oker, key, ci.Pos(), "completion reported with rt=%s err=%s (want the entry's own ctx.Rt(), ctx.Err())", rt, er)
 					case retry != nil && (f == retry || f.Parent() == retry):
 						c.Hold(key+" / exception", ci.Pos(), "outlier active recovery probe reports its own connection result")
@@ -683,4 +683,65 @@ func returnValueCases(r *ssa.Return, idx int) []retCase {
 		return out
 	}
 	return []retCase{{val: v, block: r.Block()}}
+}
+
+func init() {
+	register(&Rule{
+		ID: "cb.rollback-hook-only-for-winner", Props: []string{"C12", "C03"}, Floor: 1,
+		Doc: "the exit hook that rolls a half-open breaker back to Open when the probing entry ends up blocked is registered (SentinelEntry.WhenExit) only on the success branch of the Open->HalfOpen CAS, directly or through a helper all of whose call sites are on that branch: a request that lost the CAS and is itself blocked by the breaker must not re-open the winner's half-open passage",
+		Run: func(c *Ctx) {
+			cas, sites := cbCasSites(c.P)
+			whenExit := c.P.Func("core/base.(*SentinelEntry).WhenExit")
+			if cas == nil || whenExit == nil {
+				c.AnchorLost("State.cas / SentinelEntry.WhenExit")
+				return
+			}
+			wonHalfOpen := func(ins ssa.Instruction) bool {
+				for _, s := range sites {
+					if s.ok && s.from == "Open" && s.to == "HalfOpen" && s.call != nil && s.fn == ins.Parent() && dominatedByTrue(ins.Block(), s.call) {
+						return true
+					}
+				}
+				return false
+			}
+			n := 0
+			for _, ci := range c.P.StaticCallers(whenExit) {
+				g := ci.Parent()
+				if relPkg(fnPkgPath(g)) != cbPkg {
+					continue
+				}
+				// only hooks that can change the state
+				changes := false
+				for _, a := range ci.Common().Args {
+					if mc, ok := stripConv(a).(*ssa.MakeClosure); ok {
+						for _, c2 := range callsIn(mc.Fn.(*ssa.Function)) {
+							if isStaticCallTo(c2, cas) {
+								changes = true
+							}
+						}
+					}
+				}
+				if !changes {
+					continue
+				}
+				n++
+				key := fmt.Sprintf("%s / WhenExit#%d", fnKey(g), n)
+				ok := wonHalfOpen(ci.(ssa.Instruction))
+				if !ok {
+					// helper: every call site of g must be on the winner's branch
+					callers := c.P.StaticCallers(g)
+					ok = len(callers) > 0
+					for _, cs := range callers {
+						if !wonHalfOpen(cs.(ssa.Instruction)) {
+							ok = false
+						}
+					}
+				}
+				c.Check(ok, key, ci.Pos(), "the probe-rollback hook is installed only by the caller that won cas(Open, HalfOpen)")
+			}
+			if n == 0 {
+				c.Violate(cbPkg+" / rollback-hook", cas.Pos(), "no exit hook rolls back a blocked probe: a probe that is blocked by a later slot leaves the breaker half-open forever")
+			}
+		},
+	})
 }
